@@ -1,7 +1,10 @@
 pub mod c01;
 pub mod c02;
 pub mod c03;
+pub mod c04;
+pub mod c05;
 pub mod c08;
+pub mod c11;
 
 use crate::fw::Ctx;
 pub fn dispatch(ctx: &Ctx) -> i32 {
@@ -9,7 +12,10 @@ pub fn dispatch(ctx: &Ctx) -> i32 {
         "C01" => c01::run(ctx),
         "C02" => c02::run(ctx),
         "C03" => c03::run(ctx),
+        "C04" => c04::run(ctx),
+        "C05" => c05::run(ctx),
         "C08" => c08::run(ctx),
+        "C11" => c11::run(ctx),
         other => {
             println!("INCONCLUSIVE property={} no such check", other);
             2
